@@ -126,6 +126,7 @@ class Batch:
                 last_idx = None
                 got_bye = False
                 hung = False
+                warm_crash = False
                 fd = p.stdout.fileno()
                 buf = b""
                 hang_s = spec.get("hang_s", 900 if spec["config"] == "shipped" else 240)
@@ -156,9 +157,17 @@ class Batch:
                             with self.lock:
                                 self.bye.append(j)
                         elif t == "run":
+                            if j["run"] >= (1 << 62):
+                                # crash inside the per-process warm-up history: report it once, do not restart this worker
+                                j["run"] = -1 - w
+                                self.absorb(j)
+                                warm_crash = True
+                                continue
                             last_idx = j["run"]
                             self.absorb(j)
                 p.wait()
+                if warm_crash:
+                    break
                 if hung:
                     with self.lock:
                         self.hangs += 1
